@@ -2,6 +2,8 @@ import IastModel.Rewriter.Rewrite
 import IastModel.Spec.Erase
 import IastModel.Props.C07
 import IastModel.Lemmas.EffBlock
+import IastModel.Lemmas.ErVisitMain
+import IastModel.Lemmas.ErStrip
 /-
   C02 — rewriting only adds instrumentation: erasing it gives back the input program.
   Proved so far: the erasure of a hook call is the erasure of its first argument (whatever the
@@ -91,5 +93,55 @@ theorem visit_preserves_effect_nodes (cfg : Config) (f : Nat) (root : Bool) (n :
     (h0 : ns n = 0) (ht : targetsOk n = true) (hs : s.status ≠ .cancelled) :
     eff (visit cfg f root n s).1 = eff n :=
   visit_E cfg (okCfg cfg) (cfgOk_dsts cfg) f root n s h0 ht hs
+
+
+/-! ### erasing the instrumentation gives back the input -/
+
+/-- on a well-formed source tree (what the parser produces: no reserved temporary, no mention of the
+    hook namespace, parentheses wider than their content, real positions) `erase` changes nothing -/
+theorem erase_is_identity_on_source (n : Node) (h : srcOk n = true) (σ : Env) : erase σ n = (n, σ) :=
+  erase_src n h σ
+
+/-- **C02 for the operation visitor (partial: trees without optional chaining).**  For every
+    configuration, fuel, context flag, state and well-formed source tree `n` — statement, expression,
+    any nesting of any node kinds — the tree the operation visitor returns erases, in every environment,
+    to `n` itself up to source positions: each hook call gives way to its first argument, each
+    temporary to the expression assigned to it, `T = hook(T + R, …)` to `T += R`, `t1.call(t0, …)` to
+    the method call, the injected arrow body to the expression.  All transforms are covered (`+`, `+=`
+    with every target shape, templates, method calls, `X.prototype.m.call|apply` with plain and spread
+    this, bare calls, `apply` argument arrays with holes and spreads, arrows); *partial*: the
+    optional-chain lowering is excluded by `noOpt`, and the block visitor's `let` / nested blocks and
+    the file prologue are covered by `dropPrologue_insert` and the oracle, not by this theorem. -/
+theorem operation_visitor_erases_to_input_partial (cfg : Config) (f : Nat) (root : Bool) (n : Node) (s : St)
+    (hs : srcOk n = true) (hno : noOpt n = true) :
+    ∀ σ, ∃ X σ', erase σ (visit cfg f root n s).1 = (X, σ') ∧ strip X = strip n ∧ Node.eqNS X n = true := by
+  intro σ
+  have h := visit_VRes cfg f root n s hs hno
+  cases root
+  · obtain ⟨X, Δ, e, sX, _⟩ := h.2.1 σ
+    exact ⟨X, _, e, sX.1, eqNS_of_strip sX.1⟩
+  · obtain ⟨hi, hv⟩ := h
+    obtain ⟨X, Δ, e, sX, _⟩ := hv.1 σ
+    exact ⟨X, _, e, sX.1, eqNS_of_strip sX.1⟩
+
+/-- in a nested (non-root) context the temporaries the erasure binds are exactly those allocated while
+    visiting: nothing leaks into the environment of the surrounding expression -/
+theorem operation_visitor_binds_only_its_own_temporaries_partial (cfg : Config) (f : Nat) (n : Node) (s : St)
+    (hs : srcOk n = true) (hno : noOpt n = true) :
+    s.counter ≤ (visit cfg f false n s).2.counter ∧
+    ∀ σ, ∃ X Δ, erase σ (visit cfg f false n s).1 = (X, Δ ++ σ) ∧ strip X = strip n ∧
+      ∀ p ∈ Δ, s.counter ≤ p.1 ∧ p.1 < (visit cfg f false n s).2.counter := by
+  have h := visit_VRes cfg f false n s hs hno
+  refine ⟨h.1, ?_⟩
+  intro σ
+  obtain ⟨X, Δ, e, sX, w⟩ := h.2.1 σ
+  exact ⟨X, Δ, e, sX.1, w⟩
+
+/-- the hypotheses are satisfiable: `a + b()` is a well-formed source tree without optional chaining -/
+example : srcOk (.bin "+" (.ident (.user "a") ⟨1, 2⟩) (.call (.ident (.user "b") ⟨5, 6⟩) [] ⟨5, 8⟩) ⟨1, 8⟩) = true ∧
+    noOpt (.bin "+" (.ident (.user "a") ⟨1, 2⟩) (.call (.ident (.user "b") ⟨5, 6⟩) [] ⟨5, 8⟩) ⟨1, 8⟩) = true := by
+  constructor
+  · simp [srcOk_eq, srcNode, srcOkL, Node.kids, callThisClash, Generated.ddGlobalNamespace]
+  · simp [noOpt_eq, noOptK, Node.kids]
 
 end IastModel.C02
